@@ -588,6 +588,37 @@ def rule_returns_always(run):
     class _Self:
         pass
 
+    # loops and loop exits: `break` / `continue` leave the loop body, not the function; a loop can always be left
+    # through its condition or a break, so none of them returns always
+    for cname, args in (("Break", ()), ("Continue", ()), ("While", "loop")):
+        g = om.func(f"{cname}.__init__")
+        so = _Self()
+        got = {}
+
+        class _Sup0:
+            pass
+
+        def _mk0():
+            o = _Sup0()
+
+            def init(*a, **k):
+                got["returns_always"] = (a[0] if a else k.get("returns_always", False))
+            o.__dict__["__init__"] = init
+            return o
+
+        class _Test:
+            def result(self):
+                return True   # `while True:`
+
+        try:
+            if args == "loop":
+                Interp(om, {"super": _mk0, "__setattr__": lambda o, k, v: setattr(o, k, v)}).call_function(f"{cname}.__init__", so, _Test(), _Blk(True))
+            else:
+                Interp(om, {"super": _mk0, "__setattr__": lambda o, k, v: setattr(o, k, v)}).call_function(f"{cname}.__init__", so)
+            ra = got.get("returns_always", False)
+        except Reject as e:
+            ra = f"rejected: {e}"
+        run.ob(ra is False or ra is None, f"out.{cname}.__init__", file=om.rel, line=g.node.lineno, detail="not-a-return", expected="returns_always=False", found=f"returns_always={ra}")
     for n_br, ret, has_default, exp in ((2, True, False, False), (2, True, True, True), (1, True, False, False), (2, False, False, False), (2, False, True, False)):
         so = _Self()
         got = {}
